@@ -6,7 +6,7 @@
    Maps are Coq functions, so equalities of states rest on functional extensionality. *)
 From Coq Require Import List NArith Bool.
 From Coq Require Import String.
-From Wesh Require Import Model.MetaLog Proofs.MetaLog Gen.Index GenFacts.IndexFacts.
+From Wesh Require Import Model.MetaLog Proofs.MetaLog Model.C04_Alias Proofs.C04_Alias Gen.Index GenFacts.IndexFacts.
 Import ListNotations.
 Open Scope N_scope.
 
@@ -64,6 +64,80 @@ Theorem C04_source_shape :
   index_handlers = first_wins_expected.
 Proof. exact (conj index_reads_the_log_order (conj index_resets_as_modelled handlers_first_wins)). Qed.
 
+(* ---- alias keys of a contact group (Model.C04_Alias): [index_full own ownm es] is the pair of the
+   state above and the alias keys (ownAliasKeySent, otherAliasKey, the queue kept after an error) a
+   replica whose device is [own] and member key [ownm] derives from a fresh index ---- *)
+
+(* a function of the SET of entries *)
+Theorem C04_alias_keys_function_of_entry_set :
+  forall own ownm es es',
+    ids_distinct es -> ids_distinct es' -> (forall e, In e es <-> In e es') ->
+    index_full own ownm es = index_full own ownm es'.
+Proof. exact alias_set_function. Qed.
+
+(* however the entries arrived (sub-logs indexed before in any order, including passes in which
+   the announcing device was not known yet): once the final log has been indexed, state and alias
+   keys are those of a fresh index, and they are spelled out by [alias_spec]: sent iff the log holds
+   an alias of an announced own device, and the key of the other member *)
+Theorem C04_alias_keys_arrival_independent :
+  forall own ownm final ls,
+    dev_functional (map e_ev final) ->
+    Forall (fun l => incl l final) ls ->
+    update_full own ownm (fold_left (update_full own ownm) ls full_init) final
+    = (index own final, alias_spec own ownm final)
+    /\ index_full own ownm final = (index own final, alias_spec own ownm final).
+Proof.
+  intros own ownm final ls Hf Hall.
+  exact (conj (alias_arrival_independent own ownm final ls Hf Hall) (alias_index_full own ownm final Hf)).
+Qed.
+
+(* latest wins: when the other member publishes one key (what ContactSendAliasKey does: the account
+   proof key), the key kept by the scan is the one of the latest alias event in log order *)
+Theorem C04_alias_key_is_latest :
+  forall ownm devs q key,
+    other_alias_constant ownm devs q key ->
+    last_other ownm devs q None = latest_other ownm devs (rev q).
+Proof. exact alias_is_latest_when_constant. Qed.
+
+(* observation (DESIGN 10.3): if the other member published two DIFFERENT alias keys, the index
+   would keep the oldest, not the latest - still a function of the entry set *)
+Theorem C04_alias_oldest_stays_observation :
+  a_other (snd (index_full 11 10 [wit_dev; wit_al1; wit_al2])) = Some 31
+  /\ latest_other 10 (g_dev (index 11 [wit_dev; wit_al1; wit_al2])) [(21, 31); (21, 32)] = Some 32.
+Proof. exact alias_oldest_stays. Qed.
+
+(* why the pinned code failed (repaired, KNOWN_FINDINGS): an alias key of a device that is not
+   announced made the post-index action fail and keep its queue; the keys then depended on arrival *)
+Theorem C04_alias_pinned_error_path_refuted :
+  p_other (snd (update_full_pinned 9 10 pinned_init [pin_e1; pin_e2; pin_e3])) = Some 32 /\
+  p_other (snd (fold_left (update_full_pinned 9 10) [[pin_e1]; [pin_e1; pin_e2]; [pin_e1; pin_e2; pin_e3]] pinned_init)) = None /\
+  a_other (snd (update_full 9 10 full_init [pin_e1; pin_e2; pin_e3])) = Some 32 /\
+  a_other (snd (fold_left (update_full 9 10) [[pin_e1]; [pin_e1; pin_e2]; [pin_e1; pin_e2; pin_e3]] full_init)) = Some 32.
+Proof. exact pinned_alias_depended_on_arrival. Qed.
+
+(* why the resolution is deferred: resolving inside the handler, during the newest-first scan, makes
+   the result depend on what earlier passes left in the device map *)
+Theorem C04_alias_inline_resolution_refuted :
+  scan_inline 10 (fun _ => None) [EAlias 21 31; EDevice 20 21] false None = (false, None) /\
+  scan_inline 10 (fun d => if d =? 21 then Some 20 else None) [EAlias 21 31; EDevice 20 21] false None = (false, Some 31).
+Proof. exact inline_resolution_depends_on_arrival. Qed.
+
+(* and the CURRENT source has that shape (generated facts) *)
+Theorem C04_alias_source_shape :
+  (alias_handler_touches = ["eventsContactAddAliasKey"] /\
+   alias_post_action_touches = ["eventsContactAddAliasKey"; "unsafeGetMemberByDevice"; "ownMemberDevice"; "ownAliasKeySent"; "otherAliasKey"] /\
+   post_index_actions = ["m.postHandlerSentAliases"] /\
+   post_actions_run_after_scan = true /\
+   alias_walk_can_stop_early = false)%string.
+Proof. exact alias_resolution_is_deferred. Qed.
+
+Print Assumptions C04_alias_keys_function_of_entry_set.
+Print Assumptions C04_alias_keys_arrival_independent.
+Print Assumptions C04_alias_key_is_latest.
+Print Assumptions C04_alias_oldest_stays_observation.
+Print Assumptions C04_alias_pinned_error_path_refuted.
+Print Assumptions C04_alias_inline_resolution_refuted.
+Print Assumptions C04_alias_source_shape.
 Print Assumptions C04_source_shape.
 Print Assumptions C04_state_is_function_of_entry_set.
 Print Assumptions C04_arrival_independent.
